@@ -15,6 +15,7 @@ PROPS = {
     },
     "C05": {
         "vx": ["smt_sorts"],
+        "ax": True,
         "level": "proof",
     },
     "C08": {
